@@ -573,10 +573,53 @@ class Escape:
         pairs = []
         for k, v in zip(arg.keys, arg.values):
             kn, vn = self.exc_name(f.module, k), self.exc_name(f.module, v)
+            if kn is not None and vn is None and isinstance(v, ast.Name) and v.id in f.param_names():
+                # the target class is a parameter of the routine: every class some call site passes (or the default) - all entries share the key
+                vns = self._param_classes(f, v.id)
+                if vns:
+                    pairs.extend((kn, x) for x in vns)
+                    continue
             if kn is None or vn is None:
                 raise AnalysisError(f"cannot resolve map_exceptions entry {ast.unparse(k) if k else k}: {ast.unparse(v)} in {f.qual}")
             pairs.append((kn, vn))
         return pairs
+
+    def _param_classes(self, f: FuncInfo, pname: str, _depth: int = 3) -> list[str]:
+        """Exception classes bound to parameter `pname` of `f` by any call in the program (by callee name) or by its default."""
+        out: list[str] = []
+        args = f.node.args
+        names = [a.arg for a in args.posonlyargs + args.args]
+        pos = names.index(pname) - (1 if names and names[0] in ("self", "cls") else 0) if pname in names else None
+        dflt = None
+        pos_defaults = dict(zip(names[len(names) - len(args.defaults):], args.defaults))
+        kw_defaults = {a.arg: d for a, d in zip(args.kwonlyargs, args.kw_defaults) if d is not None}
+        dflt = pos_defaults.get(pname, kw_defaults.get(pname))
+        unresolved = False
+        for g in self.prog.all_functions():
+            for c in own_nodes(g.node):
+                if not (isinstance(c, ast.Call) and (chain(c.func) or [""])[-1] == f.name):
+                    continue
+                val = next((k.value for k in c.keywords if k.arg == pname), None)
+                if val is None and pos is not None and 0 <= pos < len(c.args):
+                    val = c.args[pos]
+                if val is None:
+                    continue
+                n = self.exc_name(g.module, val)
+                if n is None and isinstance(val, ast.Name) and val.id in g.param_names() and _depth > 0:
+                    # handed on from the caller's own parameter
+                    more = self._param_classes(g, val.id, _depth - 1) if g is not f else []
+                    if not more and g is not f:
+                        unresolved = True
+                    out.extend(x for x in more if x not in out)
+                elif n is None:
+                    unresolved = True
+                elif n not in out:
+                    out.append(n)
+        if dflt is not None:
+            n = self.exc_name(f.module, dflt)
+            if n is not None and n not in out:
+                out.append(n)
+        return [] if unresolved else out
 
     def apply_map(self, body: Esc, pairs: list[tuple[str, str]], hop: str) -> Esc:
         out = Esc()
@@ -587,7 +630,9 @@ class Escape:
             definite = False
             for k, v in pairs:
                 if self.is_sub(s.cls, k):
-                    out.add(Src(v, s.tag, s.chain + (hop,), s.origin))
+                    for k2, v2 in pairs:
+                        if k2 == k:         # several targets under one key: a parameter-valued target class
+                            out.add(Src(v2, s.tag, s.chain + (hop,), s.origin))
                     definite = True
                     break
                 if self.is_sub(k, s.cls):
